@@ -73,7 +73,10 @@ def per_method(method, entry, o):
         if o["kind"] == "return":
             marked = o["phase"] == "Mark" and o["pending"] == 0
             if (o["ret"] == "Some") != marked:
-                probs.append("[handout] returned %s but the arena ends %s" % (o["ret"], "Marked" if marked else "not Marked"))
+                # Some while not fully marked is unsound finalization (C07, C08); None while Marked only breaks the
+                # "exactly when" of the phase protocol (C08)
+                probs.append("[%s] returned %s but the arena ends %s" % ("handout" if o["ret"] == "Some" else "handout-missing",
+                                                                         o["ret"], "Marked" if marked else "not Marked"))
             if method == "finish_marking" and (o["ret"] == "Some") != (ph != "Sweep"):
                 probs.append("[walk] finish_marking returned %s from entry phase %s" % (o["ret"], ph))
     if method in ("cycle_debt", "finish_cycle"):
